@@ -44,6 +44,31 @@ EXH = {
     },
 }
 
+# direction A, systematic: transition cover of the state graph of a (smaller) configuration, replayed on the code.
+# (handles, maxops, maxids, initn, opkinds, crash, readers, readerops, readermax), paths replayed (None = the complete cover)
+COVER = {
+    "quick": {
+        "C04": (([1, 2], 1, 5, 2, ["add", "compactall"], False), None),
+        "C05": (([1, 2], 1, 6, 3, ["add", "compactrange", "reopen"], False), 450),
+        "C06": (([1, 2], 1, 5, 2, ["add", "compactall"], True), 600),
+        "C08": (([1, 2, 3], 1, 5, 2, ["add"], False, [1], ["compactall"], 1), 500),
+        "C09": (([1, 2], 1, 5, 2, ["add", "compactall"], False), 500),
+        "C10": [(([1, 2], 3, 4, 1, ["add", "compactrange"], False, [1], ["reload"], 1), None),
+                (([1, 2], 3, 6, 3, ["add", "compactrange"], False, [1], ["reload"], 1), 400)],
+        "C16": (([1, 2], 1, 6, 2, ["add", "empty", "compactall", "clean", "addition"], False), 500),
+    },
+    "thorough": {
+        "C04": (([1, 2], 2, 6, 2, ["add", "compactall"], False), 25000),
+        "C05": (([1, 2], 1, 6, 3, ["add", "compactrange", "reopen"], False), None),
+        "C06": (([1, 2], 1, 5, 2, ["add", "compactall"], True), None),
+        "C08": (([1, 2, 3], 1, 5, 2, ["add"], False, [1], ["compactall"], 1), 25000),
+        "C09": (([1, 2], 1, 5, 2, ["add", "compactall"], False), None),
+        "C10": [(([1, 2], 3, 4, 1, ["add", "compactrange"], False, [1], ["reload", "reopen"], 3), None),
+                (([1, 2], 3, 6, 3, ["add", "compactrange"], False, [1], ["reload"], 2), None)],
+        "C16": (([1, 2], 1, 6, 2, ["add", "empty", "compactall", "clean", "addition"], False), None),
+    },
+}
+
 # direction A / B volumes: (walks, walk depth, random runs, crash runs)
 VOL = {"quick": (150, 90, 250, 150), "thorough": (3000, 140, 6000, 4000)}
 
@@ -51,7 +76,7 @@ VOL = {"quick": (150, 90, 250, 150), "thorough": (3000, 140, 6000, 4000)}
 WEIGHTS = {
     "C08": [("add", 4), ("compactall", 5), ("compactrange", 2), ("clean", 2), ("addition", 1)],
     "C10": [("add", 4), ("compactall", 2), ("compactrange", 4), ("reload", 4), ("read", 1), ("closeopen", 1)],
-    "C16": [("add", 4), ("empty", 2), ("addition", 1), ("compactall", 3), ("compactrange", 2), ("clean", 3), ("closeopen", 2), ("autocompact", 1)],
+    "C16": [("add", 4), ("empty", 2), ("conflict", 3), ("overlap", 1), ("addition", 1), ("compactall", 3), ("compactrange", 2), ("clean", 3), ("closeopen", 2), ("autocompact", 1)],
     "C05": [("add", 4), ("addition", 1), ("overlap", 2), ("compactall", 2), ("compactrange", 5), ("closeopen", 2), ("clean", 2), ("reload", 1)],
 }
 
@@ -110,6 +135,30 @@ def run(pid, tier):
         for i, w in enumerate(walks):
             if len(w) > 2:
                 runs.append(P.run_of_acts(w, "w%d" % i, n, hash_="sha1" if i % 3 else "s256", nh=len(hs)))
+        # ... and the transition cover
+        covers = COVER[tier][pid]
+        covers = covers if isinstance(covers, list) else [covers]
+        cover_info = []
+
+        def one_cover(job):
+            ci, (ccfg, cmax) = job
+            chs, cmo, cmi, cn, cops, ccrash = ccfg[:6]
+            crd, crops, crmax = (ccfg[6], ccfg[7], ccfg[8]) if len(ccfg) > 6 else ((), (), None)
+            cover_cfg = P.proto_cfg(chs, cmo, cmi, cn, cops, ccrash, invariants=False, readers=crd, readerops=crops, readermax=crmax)
+            cpaths, ccov, ctotal, cres = P.tlc_cover(sc, cover_cfg, 10 ** 7, seed * 10 + ci, workers=4, timeout=600 if tier == "quick" else 3000)
+            full_paths = len(cpaths)
+            if cmax is not None and len(cpaths) > cmax:
+                cpaths = random.Random(seed).sample(cpaths, cmax)
+            rs = [P.run_of_acts(w, "v%d_%d" % (ci, i), cn, hash_="sha1" if i % 3 else "s256", nh=len(chs)) for i, w in enumerate(cpaths)]
+            info = dict(config=dict(handles=chs, maxops=cmo, maxids=cmi, initn=cn, opkinds=cops, crash=ccrash, readers=list(crd), readerops=list(crops)),
+                        states=cres["distinct"], transitions=ctotal, paths_in_full_cover=full_paths, paths_replayed=len(cpaths),
+                        complete=cmax is None or full_paths <= cmax)
+            return rs, info
+
+        with cf.ThreadPoolExecutor(max_workers=3) as ex:
+            for rs, info in ex.map(one_cover, list(enumerate(covers))):
+                runs += rs
+                cover_info.append(info)
         nwalks = len(runs)
 
         # ---- 4. direction B: schedules chosen on the code side
@@ -207,7 +256,8 @@ def run(pid, tier):
             samples=[{"tlc_walk_replayed": sample_walk}, {"recorded_trace": sample_trace}],
             exhaustive=all("No error has been found" in r["out"] for r in exh),
             exhaustive_configs=[dict(r["cfg"], distinct=r["distinct"], generated=r["generated"], wall=round(r["wall"], 1)) for r in exh],
-            walks_replayed=nwalks, walks_with_drift=len([d for d in drift if d[0].startswith("w")]),
+            walks_replayed=nwalks, walks_with_drift=len([d for d in drift if d[0][0] in "wv"]),
+            transition_covers=cover_info,
             drift_examples=[d[1] for d in drift[:3]],
             code_driven_runs=len(outs) - nwalks, crash_runs=len([r for r in runs if r.get("crash")]),
             events_validated=vstats["events"], trace_states=vstats["states"],
